@@ -44,6 +44,17 @@ theorem verdict_depends_on_checks_only {π : Type} (acc acc' : π → Str → Op
     propValid acc reg ff fontFace p = propValid acc' reg ff fontFace p' :=
   propValid_congr acc acc' reg ff fontFace p p' hn hp he h
 
+/-- T13.1 (registry level): the first component of `validateWithProfile(name, value, profiles)` — "valid in ANY
+profile" — does not depend on the `profiles` argument nor on `defaultProfiles`: it is `validate(name, value)`.
+(Hypothesis: profile names are distinct, as in every registry the `Profiles` class can reach.) -/
+theorem validateWithProfile_valid_is_validate {π : Type} (acc : π → Str → Option Bool) (reg : Registry π)
+    (hnd : reg.names.Nodup) (n v : Str) (ps : Option (List Str)) (a m : Bool) (l : List Str)
+    (h : validateWithProfile acc reg n v ps = .ok (a, m, l)) : a = validate acc reg n v :=
+  vwp_valid_eq_validate acc reg hnd n v ps a m l h
+
+/-- non-vacuity: the generated registry has distinct profile names -/
+example : genRegistry.names.Nodup := by decide +kernel
+
 /-- The compiled driver evaluates patterns with sets of match lengths (`acceptsFast`: duplicates removed at every
 node — the list-of-successes semantics is exponential on ambiguous patterns); it is the same function, so every
 verdict the correspondence compares is the verdict of the model these theorems speak about. -/
